@@ -3,6 +3,7 @@
   and the shape of `assertApplies (compile r)`.
 -/
 import PtaProofs.Lemmas.SemHier
+import PtaProofs.Lemmas.DroppedAbsent
 namespace Pta
 open PtaSpec
 
@@ -249,14 +250,19 @@ theorem assertApplies_compile (mt : Str → Str → Bool) (g : PGraph Str) (r : 
     have hs1 : (subjects.map compileFilter).isEmpty = false := by cases subjects <;> simp_all
     have ho1 : (objects.map compileFilter).isEmpty = false := by cases objects <;> simp_all
     cases verb <;> cases exc <;>
-      simp [assertApplies, compile, anythingMisused, convertAliases, configMissing, RuleConfig.behavior,
+      simp [assertApplies, compile, anythingMisused, droppedAbsent, convertAliases, configMissing, RuleConfig.behavior,
         Behavior.inconsistent, Behavior.explReq, Behavior.explForb, Behavior.otherReq, Behavior.otherForb,
         hs1, ho1, matchRule, convertFilters_map, beh, RuleSpec.effObjects, RuleSpec.effExc] <;> rfl
   · have hv : verb = .shouldNot := hany rfl
     subst hv
     have hdd' := hdd rfl
     have hs1 : (subjects.map compileFilter).isEmpty = false := by cases subjects <;> simp_all
-    simp [assertApplies, compile, anythingMisused, convertAliases, configMissing, RuleConfig.behavior,
+    have hda : droppedAbsent g (convertAliases (compile ⟨.shouldNot, dir, exc, subjects, objects, true⟩).cfg) = false := by
+      rw [droppedAbsent_convert g _ (subjects.map compileFilter) rfl rfl]
+      exact droppedAbsentIn_of_dedup_eq g _ hdd'
+    rw [assertApplies]
+    simp only [hda]
+    simp [compile, anythingMisused, convertAliases, configMissing, RuleConfig.behavior,
         Behavior.inconsistent, Behavior.explReq, Behavior.explForb, Behavior.otherReq, Behavior.otherForb,
         hs1, hdd', matchRule, convertFilters_map, beh, RuleSpec.effObjects, RuleSpec.effExc]
     rfl
